@@ -21,8 +21,7 @@ def unused : R SerFields := do
 
 /-- the `ME` enum (5-bit id at a byte boundary). `id_pat` variants re-read the id as the first
     field of their payload (`seek_last_read`). Result = flattened, internally tagged (`bds`). -/
-def me : R SerFields := do
-  let tc ← enumId 5
+def meBody (tc : Nat) : R SerFields :=
   if tc == 0 then do
     let u ← unused; pure (tagged (key! "bds") (key! "NoPosition") u)
   else if 1 ≤ tc && tc ≤ 4 then do
@@ -49,6 +48,10 @@ def me : R SerFields := do
     let u ← unused; pure (tagged (key! "bds") (key! "id30") u)
   else do
     let v ← Bds65.read; pure (tagged (key! "bds") (key! "65") v)
+
+def me : R SerFields := do
+  let tc ← enumId 5
+  meBody tc
 
 def capabilityName (c : Nat) : Key :=
   match c with
@@ -77,10 +80,10 @@ def identityCode : R Nat := do
 def withFields (pre : Fields) (inner : SerFields) (post : Fields := []) : SerFields :=
   inner.map fun fs => pre ++ fs ++ post
 
-/-- `DF::from_reader_with_ctx(reader, crc)` on the 7/14 buffered bytes -/
-def df (crc : Nat) : R SerFields := do
-  let id ← enumId 5
-  let dfTag (n : Key) : Key × Option Json := fld (key! "df") (.lit n)
+def dfTag (n : Key) : Key × Option Json := fld (key! "df") (.lit n)
+
+/-- the variants of `DF`, after the 5-bit id has been read -/
+def dfBody (crc : Nat) (id : Nat) : R SerFields :=
   match id with
   | 0 => do
     let _ ← bits 14
@@ -150,6 +153,11 @@ def df (crc : Nat) : R SerFields := do
       pure (.ok [dfTag (key! "CommDExtended"), fld (key! "spare") (jnat spare), fld (key! "nd") (jnat nd),
                  fld (key! "md") (.arr (md.map jnat)), fld (key! "parity") (jhex6 parity)])
     else R.fail .parse
+
+/-- `DF::from_reader_with_ctx(reader, crc)` on the 7/14 buffered bytes -/
+def df (crc : Nat) : R SerFields := do
+  let id ← enumId 5
+  dfBody crc id
 
 /-- what `Message::try_from` + `serde_json::to_string` yield -/
 inductive Decoded where
